@@ -38,8 +38,13 @@ func onTask() bool {
 	return s != nil && s.running && s.cur != nil && s.cur.goid == goid()
 }
 
+// ldbYieldOn enables scheduling points inside goleveldb file operations. A task parked there
+// holds goleveldb-internal locks, so it is only switched on by the crash check (C08), whose
+// tasks never contend for one database while parked inside it.
+var ldbYieldOn bool
+
 func ldbYield(p string) {
-	if onTask() {
+	if ldbYieldOn && onTask() {
 		simS.Yield(p)
 	}
 }
@@ -152,7 +157,7 @@ func (w *ldbWriter) write(p []byte) (int, error) {
 }
 
 func (w *ldbWriter) Write(p []byte) (int, error) {
-	if !onTask() {
+	if !ldbYieldOn || !onTask() {
 		return w.write(p)
 	}
 	simS.Yield("ldb.Write")
